@@ -79,7 +79,7 @@ Fixpoint alookup (t : values) (l : list entry) : option nat :=
   | (v, id) :: r => if vals_eqb v t then Some id else alookup t r
   end.
 
-(* indexOf (vec.go:459-466) *)
+(* indexOf (vec.go:463-470) *)
 Fixpoint index_of (target : str) (items : list str) : option nat :=
   match items with
   | [] => None
@@ -164,11 +164,11 @@ Definition Hfold (vals : values) : Z := fold_left (fun h v => haddb (hadd h v) s
 
 Definition no_constraints : bool := match cstr with [] => true | _ => false end.
 
-(* constrainLabels (vec.go:680-697) *)
+(* constrainLabels (vec.go:684-701) *)
 Definition constrain_labels (ls : lbls) : lbls :=
   if no_constraints then ls else map (fun kv => (fst kv, constrain cstr (fst kv) (snd kv))) ls.
 
-(* constrainLabelValues (vec.go:699-724); n = iterations left, nm = names[i:], rest = lvs[iLVs:].
+(* constrainLabelValues (vec.go:701-733); n = iterations left, nm = names[i:], rest = lvs[iLVs:].
    None = index out of range (lvs[iLVs] with iLVs = len(lvs)).  Slots of the result that the loop
    never writes keep the zero value "". *)
 Fixpoint constrain_lvs_loop (n i : nat) (nm : list str) (c : curry) (rest : list str) : option (list str) :=
@@ -191,6 +191,7 @@ Fixpoint constrain_lvs_loop (n i : nat) (nm : list str) (c : curry) (rest : list
   end.
 Definition constrain_lvs (c : curry) (lvs : list str) : option (list str) :=
   if no_constraints then Some lvs
+  else if negb (Nat.eqb (length lvs + length c) (length names)) then Some lvs   (* wrong number: left alone *)
   else constrain_lvs_loop (length lvs + length c) 0 names c lvs.
 
 (* expected number of values: len(names) - len(curry) *)
@@ -206,7 +207,7 @@ Definition validate_labels (ls : lbls) (c : curry) : option Z :=
   if negb (Z.of_nat (length ls) =? expected c) then Some e_arity
   else if negb (forallb (fun kv => utf8_valid (snd kv)) ls) then Some e_utf8 else None.
 
-(* hashLabelValues (vec.go:250-271) *)
+(* hashLabelValues (vec.go:254-275) *)
 Fixpoint hash_lvs_loop (i : nat) (nm : list str) (c : curry) (vals : list str) (h : Z) : Z + Z :=
   match nm with
   | [] => inr h
@@ -226,7 +227,7 @@ Definition hash_lvs (c : curry) (vals : list str) : Z + Z :=
   | None => hash_lvs_loop 0 names c vals H0
   end.
 
-(* hashLabels (vec.go:273-300) *)
+(* hashLabels (vec.go:277-304) *)
 Fixpoint hash_labels_loop (i : nat) (nm : list str) (c : curry) (ls : lbls) (h : Z) : Z + Z :=
   match nm with
   | [] => inr h
@@ -250,7 +251,7 @@ Definition hash_labels (c : curry) (ls : lbls) : Z + Z :=
   | None => hash_labels_loop 0 names c ls H0
   end.
 
-(* matchLabelValues (vec.go:604-623).  lvs[iLVs] out of range cannot happen after the length check
+(* matchLabelValues (vec.go:608-627).  lvs[iLVs] out of range cannot happen after the length check
    when the curried indices are below len(values); the model answers false there. *)
 Fixpoint match_lvs_loop (i : nat) (vals : values) (c : curry) (lvs : list str) : bool :=
   match vals with
@@ -271,7 +272,7 @@ Definition match_lvs (vals : values) (lvs : list str) (c : curry) : bool :=
 
 Definition lget0 (k : str) (ls : lbls) : str := match lget k ls with Some x => x | None => [] end.
 
-(* matchLabels (vec.go:625-643); values[i] is read in step with names[i] *)
+(* matchLabels (vec.go:629-647); values[i] is read in step with names[i] *)
 Fixpoint match_labels_loop (i : nat) (nm : list str) (vals : values) (c : curry) (ls : lbls) : bool :=
   match nm with
   | [] => true
@@ -289,7 +290,7 @@ Definition match_labels (vals : values) (ls : lbls) (c : curry) : bool :=
   if negb (Nat.eqb (length vals) (length ls + length c)) then false
   else match_labels_loop 0 names vals c ls.
 
-(* valueMatchesVariableOrCurriedValue + matchPartialLabels (vec.go:468-498) *)
+(* valueMatchesVariableOrCurriedValue + matchPartialLabels (vec.go:472-502) *)
 Definition match_partial (vals : values) (ls : lbls) (c : curry) : bool :=
   forallb (fun kv =>
     match index_of (fst kv) names with
@@ -301,7 +302,7 @@ Definition match_partial (vals : values) (ls : lbls) (c : curry) : bool :=
     | None => false
     end) ls.
 
-(* extractLabelValues (vec.go:645-657) *)
+(* extractLabelValues (vec.go:649-661) *)
 Fixpoint extract_loop (i : nat) (nm : list str) (c : curry) (ls : lbls) : values :=
   match nm with
   | [] => []
@@ -313,7 +314,7 @@ Fixpoint extract_loop (i : nat) (nm : list str) (c : curry) (ls : lbls) : values
   end.
 Definition extract_lvs (ls : lbls) (c : curry) : values := extract_loop 0 names c ls.
 
-(* inlineLabelValues (vec.go:659-672); n = len(lvs)+len(curry) - i *)
+(* inlineLabelValues (vec.go:663-676); n = len(lvs)+len(curry) - i *)
 Fixpoint inline_loop (n i : nat) (c : curry) (lvs : list str) : values :=
   match n with
   | O => []
@@ -357,7 +358,7 @@ Fixpoint find_idx (p : values -> bool) (b : list entry) : nat :=
   | e :: r => if p (fst e) then O else S (find_idx p r)
   end.
 
-(* getMetricWithHashAnd* (vec.go:552-576) *)
+(* getMetricWithHashAnd* (vec.go:556-580) *)
 Definition probe (h : Z) (p : values -> bool) (st : mstate) : option nat :=
   match bucket_get h (mm st) with
   | Some b => let i := find_idx p b in
@@ -365,7 +366,7 @@ Definition probe (h : Z) (p : values -> bool) (st : mstate) : option nat :=
   | None => None
   end.
 
-(* the write-locked section of getOrCreateMetricWith* (vec.go:514-522, 539-547) *)
+(* the write-locked section of getOrCreateMetricWith* (vec.go:518-526, 543-551) *)
 Definition sec_create (h : Z) (p : values -> bool) (newvals : values) (st : mstate) : nat * mstate :=
   match probe h p st with
   | Some id => (id, st)
@@ -382,7 +383,7 @@ Definition get_or_create (h : Z) (p : values -> bool) (newvals : values) (st : m
   | None => sec_create h p newvals st
   end.
 
-(* deleteByHashWith* (vec.go:355-407) *)
+(* deleteByHashWith* (vec.go:359-411) *)
 Definition delete_by_hash (h : Z) (p : values -> bool) (st : mstate) : bool * mstate :=
   match bucket_get h (mm st) with
   | None => (false, st)
@@ -394,7 +395,7 @@ Definition delete_by_hash (h : Z) (p : values -> bool) (st : mstate) : bool * ms
          else (true, mkM (bucket_del h (mm st)) (next st))
   end.
 
-(* deleteByLabels (vec.go:410-442): every bucket is visited once *)
+(* deleteByLabels (vec.go:414-446): every bucket is visited once *)
 Fixpoint delete_partial_loop (p : values -> bool) (m : list (Z * list entry)) : Z * list (Z * list entry) :=
   match m with
   | [] => (0, [])
@@ -414,7 +415,7 @@ Fixpoint delete_partial_loop (p : values -> bool) (m : list (Z * list entry)) : 
 Definition delete_partial (p : values -> bool) (st : mstate) : Z * mstate :=
   let '(n, m') := delete_partial_loop p (mm st) in (n, mkM m' (next st)).
 
-(* CurryWith (vec.go:149-183) *)
+(* CurryWith (vec.go:149-187) *)
 Fixpoint curry_loop (i : nat) (nm : list str) (old : curry) (ls : lbls) : Z + curry :=
   match nm with
   | [] => inr []
@@ -428,10 +429,13 @@ Fixpoint curry_loop (i : nat) (nm : list str) (old : curry) (ls : lbls) : Z + cu
     | (None, _) =>
       match lget n ls with
       | None => curry_loop (S i) nm' old ls
-      | Some val => match curry_loop (S i) nm' old ls with
-                    | inr r => inr ((i, constrain cstr n val) :: r)
-                    | inl e => inl e
-                    end
+      | Some val =>
+        let val' := constrain cstr n val in
+        if negb (utf8_valid val') then inl e_utf8
+        else match curry_loop (S i) nm' old ls with
+             | inr r => inr ((i, val') :: r)
+             | inl e => inl e
+             end
       end
     end
   end.
@@ -522,22 +526,6 @@ Fixpoint run (w : world) (ops : list op) : list result * world :=
   match ops with
   | [] => ([], w)
   | o :: r => let '(x, w') := step w o in let '(xs, w'') := run w' r in (x :: xs, w'')
-  end.
-
-(* the inputs on which the two known defects of the code show: a runtime panic in
-   constrainLabelValues, and CurryWith storing a value that is not valid UTF-8 *)
-Definition op_defect_free (views : list curry) (o : op) : bool :=
-  match o with
-  | OGetLV v _ lvs | ODelLV v lvs =>
-      match constrain_lvs (view_of views v) lvs with Some _ => true | None => false end
-  | OCurry v _ ls => forallb (fun kv => utf8_valid (constrain cstr (fst kv) (snd kv))) ls
-  | _ => true
-  end.
-
-Fixpoint run_defect_free (w : world) (ops : list op) : bool :=
-  match ops with
-  | [] => true
-  | o :: r => op_defect_free (w_views w) o && run_defect_free (snd (step w o)) r
   end.
 
 End Vec.
